@@ -464,9 +464,11 @@ def rule_same_words(ctx, strict=False):
     s8 = ctx.body("board::square::<impl std::convert::From<board::square::Square> for u8>::from")
     ssym, s8sym = ctx.sym(sq), ctx.sym(s8)
     r0 = s8sym.local(0)
-    ok8 = "Mul" in expr_str(r0) and "rank" in expr_str(r0) and "file" in expr_str(r0) and "8" in expr_str(r0)
     v = ssym.local(0)
-    oksq = v[0] == "agg" and "Shr" in expr_str(v[3][0]) and "3" in expr_str(v[3][0]) and "Rem" in expr_str(v[3][1]) and "8" in expr_str(v[3][1])
+    # decided by evaluating both expression trees over their whole domain: any spelling of rank*8+file / (v/8, v%8) passes
+    ok8 = all(mir.eval_expr(r0, {"value.rank": r, "value.file": f}) == r * 8 + f for r in range(8) for f in range(8))
+    oksq = v[0] == "agg" and len(v[3]) == 2 and tuple(v[4]) == ("rank", "file") and all(
+        (mir.eval_expr(v[3][0], {"value": n}), mir.eval_expr(v[3][1], {"value": n})) == (n // 8, n % 8) for n in range(64))
     ctx.check(ok8 and oksq, "square-index-maps", "Square -> u8 is rank*8+file and u8 -> Square is (v>>3, v%8): the loop index of From and the mutators' square index agree", s8.where(0),
               bad_what="square <-> index maps changed: %s / %s" % (expr_str(r0), expr_str(v)))
 
